@@ -26,7 +26,9 @@ static std::string digits(const std::vector<int>& s) {
 static double median_ref(std::vector<double> w) {
     std::sort(w.begin(), w.end());
     const size_t n = w.size();
-    return (n % 2 == 1) ? w[n / 2] : (w[n / 2] + w[n / 2 - 1]) / 2;   // exact for the small-integer letters used
+    // even n: the exact mean of the two middle elements, computed in long double and rounded to double (it is representable
+    // whenever the two elements are; for subnormal elements the halving of a single element is NOT exact, the halving of the sum is)
+    return (n % 2 == 1) ? w[n / 2] : (double)(((ld)w[n / 2] + (ld)w[n / 2 - 1]) / 2);
 }
 
 // ---------------------------------------------------------------------------------------------- sort / issorted / median
@@ -86,10 +88,14 @@ static double rank_val(int r) { return (r - 2) * 0.75; }
 // values far below eps, adjacent doubles (below 0.5 and above 1, the latter decreasing) and huge values.
 // Maps 6..10 change the UNIT of the data: plain * 2^k (exact), k in {-1000, -540, -300, +300, +1000}: order statistics and
 // rank correlations do not depend on the unit, products / squares / casts of the values do.
-static const int NMAP = 11;
+// Maps 11..13: SUBNORMAL values r*2^-1074 (small integer multiples of the smallest subnormal, odd multiples and repeats included),
+// r*2^-1060, and HUGE values r*2^1020 (up to DBL_MAX/2 for the ranks used; the sum of the two middle elements stays representable).
+static const int NMAP = 14;
+static const int MAP_HUGE = 13;
 static const char* MAPN[NMAP] = {"plain", "r*1e-18", "1e-300*(r+1)", "0.25+r*2^-54", "-(1+r*eps)", "r*1e300/8",
-                                 "plain*2^-1000", "plain*2^-540", "plain*2^-300", "plain*2^300", "plain*2^1000"};
-static const int MAPK[NMAP] = {0, 0, 0, 0, 0, 0, -1000, -540, -300, 300, 1000};
+                                 "plain*2^-1000", "plain*2^-540", "plain*2^-300", "plain*2^300", "plain*2^1000",
+                                 "r*2^-1074", "r*2^-1060", "r*2^1020"};
+static const int MAPK[NMAP] = {0, 0, 0, 0, 0, 0, -1000, -540, -300, 300, 1000, -1074, -1060, 1020};
 static double vmap(int m, int r, double plain) {
     switch (m) {
     case 0: return plain;
@@ -98,7 +104,8 @@ static double vmap(int m, int r, double plain) {
     case 3: return 0.25 + r * 0x1p-54;
     case 4: return -(1.0 + r * EPS);
     case 5: return r * (1e300 / 8);
-    default: return std::ldexp(plain, MAPK[m]);
+    case 6: case 7: case 8: case 9: case 10: return std::ldexp(plain, MAPK[m]);
+    default: return std::ldexp((double)r, MAPK[m]);
     }
 }
 
@@ -206,6 +213,19 @@ static void run_sort(Ctx& ctx, bool T) {
                         for (int i = 0; i < L2; ++i) v.push_back(runval(k2, i) + ((k2 & 1) ? L2 / 2 : -L2 / 2) + 0.5);   // overlapping value ranges
                         check_sort_family(ctx, v);
                     }
+    }
+    // median of two / four elements whose SUM exceeds DBL_MAX (the true median (a+b)/2 is representable): observed and counted,
+    // not judged (the mean of the two middle elements is formed as (a+b)/2 in double)
+    {
+        const double big[4] = {1.7976931348623157e308, 0x1.8p1023, 0x1p1023, 0x1.4p1023};
+        for (int i = 0; i < 4; ++i)
+            for (int j = i; j < 4; ++j) {
+                if (!ctx.take("median.near_dbl_max", P().kv("a", big[i]).kv("b", big[j]))) continue;
+                const double exact = (double)(((ld)big[i] + (ld)big[j]) / 2);
+                const double m2 = dsplib::median(mk({big[i], big[j]})), m4 = dsplib::median(mk({big[j], big[i], big[i], big[j]}));
+                ctx.note(m2 == exact && m4 == exact ? "median near DBL_MAX (a+b overflows): exact median returned"
+                                                     : (std::isinf(m2) || std::isinf(m4) ? "median near DBL_MAX (a+b overflows): inf returned (not judged)" : "median near DBL_MAX (a+b overflows): other value (not judged)"));
+            }
     }
     // big arrays (beyond 65536 elements) with closed-form letters, both directions
     const char* bigl[] = {"reversed-ramp", "two-valued", "rotated-ramp", "ramp"};
@@ -435,6 +455,7 @@ static void run_medfilt(Ctx& ctx, bool T) {
             for (int L = 1; L <= 24; ++L)   // every (n, length) pair of 3..12 x 1..24 (includes lengths below n/2)
                 for (int l = 0; l < 7; ++l)
                   for (int m = 0; m < NMAP; ++m) {
+                    if (m == MAP_HUGE) continue;   // ranks up to 48 here: r*2^1020 would overflow
                     if (!ctx.take("medfilt.func.letters", P().kv("n", n).kv("len", L).kv("letter", l).kv("map", MAPN[m]))) continue;
                     std::vector<double> x((size_t)L);
                     for (int i = 0; i < L; ++i) {
